@@ -300,6 +300,31 @@ def run_evolution(spec):
                 require(order >= pp - 0.6, 'imag-order', 'errors %r, observed order %.2f, documented %d' % (errs, order, pp), **tags)
             require(errs[1] <= 50 * (tau * nH) ** 2 + 1e-9, 'imag-error-size', '%r' % errs, **tags)
             classes.append('imaginary')
+        # --- imaginary steps of the generic engines: run_evolution(N, dt) with dt = -i dtau ("evolved_time: float | complex, the
+        # imaginary part of t is decreasing for an imaginary time evolution"); the state is compared as a ray with exp(-tau H) psi0
+        if spec['imag'] and kind in ('ExpMPO', 'TDVP1', 'TDVP2') and spec.get('compression') != 'zip_up':
+            tau = 0.1 / max(1., nH / 4.)
+            ex = scipy.linalg.expm(-tau * H) @ v0
+            ex = ex / np.linalg.norm(ex)
+            errs = []
+            for n in (2, 4):
+                phi = psi0.copy()
+                e = make_engine(spec, phi, model, tau / n, n, None)
+                e.run_evolution(n, -1j * tau / n)
+                require(abs(e.evolved_time - (-1j * tau)) <= 1e-12, 'evolved_time-imag', 'evolved_time = %r after %d steps of -i*%r' % (e.evolved_time, n, tau / n), **tags)
+                r = M.mps_to_dense(e.psi, include_norm=False).reshape(-1)
+                if not np.all(np.isfinite(r)) or np.linalg.norm(r) == 0:
+                    require(False, 'imag-state-invalid', 'state after imaginary steps is zero or not finite', **tags)
+                r = r / np.linalg.norm(r)
+                errs.append(np.sqrt(max(0., 1 - abs(np.vdot(ex, r)) ** 2)))
+            if p is not None:
+                if errs[1] > 1e-6:  # sqrt(1 - overlap^2) has a rounding floor of ~ 1.5e-8
+                    order = np.log2(errs[0] / errs[1])
+                    require(order >= p - 0.6, 'imag-order', 'errors %r, observed order %.2f, documented %d' % (errs, order, p), **tags)
+                require(errs[1] <= 50 * (tau * nH) ** min(p, 2) + 1e-9, 'imag-error-size', '%r' % errs, **tags)
+            elif spec['state'] == 'random':
+                require(errs[1] <= 50 * (tau * nH) ** 2 + 1e-9, 'imag-error-size', 'TDVP %r' % errs, **tags)
+            classes.append('imaginary-generic')
     return {'nontrivial': bool(nontrivial), 'classes': classes}
 
 
